@@ -99,8 +99,20 @@ def FV(number, num, den):
     return {"fv": [qstr(exact(number)), qstr(F(num, den))], "nd": [num, den]}
 
 
-def OQ(u, c):
-    return {"oq": [A(u), A(c)]}
+def OQ(u, c, *cap):
+    """ObtainQuantity(u, c) / ObtainQuantity(u, c, caption)"""
+    return {"oq": [A(u), A(c)] + [A(x) for x in cap[:1]]}
+
+
+def DQ(items, cap=None):
+    """ObtainQuantity(OrderedDict((category, [unit, exponent]) ...), None, caption): a derived quantity, the empty
+    quantity (no items), or - one entry with exponent 1 - the simple quantity"""
+    return {"dq": [[str(sym(c)), str(sym(u)), str(int(e))] for c, u, e in items], "cap": A(cap)}
+
+
+def UNK(cap=None):
+    """units.GetUnknownQuantity(caption)"""
+    return {"unk": A(cap)}
 
 
 def A(x):
@@ -162,8 +174,16 @@ def py_arg(j):
         num, den = j["nd"]
         return FractionValue(n.numerator / n.denominator, (num, den))
     if "oq" in j:
-        u, c = (py_atom(x) for x in j["oq"])
-        return ObtainQuantity(u, c)
+        return ObtainQuantity(*(py_atom(x) for x in j["oq"]))
+    if "dq" in j:
+        from collections import OrderedDict
+
+        return ObtainQuantity(OrderedDict((unsym(int(c)), [unsym(int(u)), int(e)]) for c, u, e in j["dq"]), None,
+                              py_atom(j.get("cap")))
+    if "unk" in j:
+        from barril import units
+
+        return units.GetUnknownQuantity(py_atom(j["unk"]))
     return py_atom(j)
 
 
@@ -207,6 +227,7 @@ def canon_obj(o):
     q = o.GetQuantity()
     d = dict(cls=cls, cat=str(sym(q.GetCategory())), unit=str(sym(q.GetUnit())), qtype=str(sym(q.GetQuantityType())),
              dim=None)
+    d.update(canon_quantity(q))
     v = o._value
     if cls == "scalar":
         d["val"] = {"n": qstr(exact(v))} if isinstance(v, float) else {"other": type(v).__name__}
@@ -216,6 +237,16 @@ def canon_obj(o):
         d["val"] = {"any": canon_arg(v)}
         if cls == "fixed":
             d["dim"] = str(o._dimension)
+    return d
+
+
+def canon_quantity(q):
+    """the identity of a Quantity: caption and - for a derived one - the composing map (its category, unit and quantity
+    type strings are C20's and are left out: "0")"""
+    d = dict(cap=str(sym(q.GetUnknownCaption() or "")), comp=None)
+    if q.IsDerived():
+        d["comp"] = [[str(sym(c)), str(sym(ue[0])), str(int(ue[1]))] for c, ue in q.GetCategoryToUnitAndExps().items()]
+        d.update(cat="0", unit="0", qtype="0")
     return d
 
 
@@ -231,6 +262,13 @@ def build(f):
     a1 = py_arg(f.get("a1"))
     a2 = py_arg(f.get("a2"))
     a3 = py_atom(f.get("a3"))
+    if f["k"] == "empty":
+        # the class methods for objects without unit (FractionScalar has none: AttributeError)
+        if f["cls"] in ("scalar", "fraction"):
+            return cls.CreateEmptyScalar(value=a1) if f.get("kw") else cls.CreateEmptyScalar(a1)
+        if f["cls"] == "array":
+            return cls.CreateEmptyArray(values=a1) if f.get("kw") else cls.CreateEmptyArray(a1)
+        return cls.CreateEmptyArray(f.get("dim", 0), values=a1) if f.get("kw") else cls.CreateEmptyArray(f.get("dim", 0), a1)
     if f["k"] == "cwq":
         kwargs = {}
         if f.get("dimkw") is not None:
@@ -597,13 +635,24 @@ def _show_arg(j):
     if isinstance(j, dict) and "fv" in j:
         return "FractionValue(%s, %s)" % (float(qparse(j["fv"][0])), tuple(j["nd"]))
     if isinstance(j, dict) and "oq" in j:
-        return "ObtainQuantity(%r, %r)" % tuple(_show_atom(i) for i in j["oq"])
+        return "ObtainQuantity(%s)" % ", ".join(repr(_show_atom(i)) for i in j["oq"])
+    if isinstance(j, dict) and "dq" in j:
+        items = ", ".join("(%r, [%r, %d])" % (unsym(int(c)), unsym(int(u)), int(e)) for c, u, e in j["dq"])
+        cap = "" if j.get("cap") is None else ", None, %r" % (_show_atom(j["cap"]),)
+        return "ObtainQuantity(OrderedDict([%s])%s)" % (items, cap)
+    if isinstance(j, dict) and "unk" in j:
+        return "GetUnknownQuantity(%s)" % ("" if j["unk"] is None else repr(_show_atom(j["unk"])))
     return repr(_show_atom(j))
 
 
 def show_form(f):
     name = dict(scalar="Scalar", array="Array", fixed="FixedArray", fraction="FractionScalar")[f["cls"]]
     args = [_show_arg(f.get("a1")), _show_arg(f.get("a2")), _show_arg(f.get("a3"))]
+    if f["k"] == "empty":
+        meth = "CreateEmptyScalar" if f["cls"] in ("scalar", "fraction") else "CreateEmptyArray"
+        kwn = "value=" if f["cls"] in ("scalar", "fraction") else "values="
+        pre = "%s, " % f.get("dim", 0) if f["cls"] == "fixed" else ""
+        return "%s.%s(%s%s%s)" % (name, meth, pre, kwn if f.get("kw") else "", args[0])
     if f["k"] == "cwq":
         extra = ", dimension=%s" % f["dimkw"] if f.get("dimkw") is not None else ""
         return "%s.CreateWithQuantity(%s, %s%s%s)" % (name, args[0], "value=" if f.get("kw") else "", args[1], extra)
@@ -628,7 +677,7 @@ def show(c):
 def _py_repr_back(o):
     from barril.units import Scalar
 
-    if type(o) is not Scalar:
+    if type(o) is not Scalar or o.GetQuantity().IsDerived():
         return None
     import warnings
 
@@ -708,7 +757,7 @@ def _is_float_of(_iv):
 
 
 def _obj_agree(io, mo, m):
-    for k in ("cls", "cat", "unit", "qtype", "dim"):
+    for k in ("cls", "cat", "unit", "qtype", "dim", "cap", "comp"):
         if io.get(k) != mo.get(k):
             return "%s differs: impl=%r model=%r" % (k, io.get(k), mo.get(k))
     if not _val_agree(io["val"], mo["val"], m):
